@@ -195,6 +195,18 @@ class Monitor:
         self.res_hist = []
         self.pen_hist = []
         self.rf = float(options["radius_final"])
+        # the final radius the framework works with is the one the USER
+        # stated (capped at the initial radius after its documented
+        # adjustment to the bounds), not something derived silently
+        stated = getattr(self, "stated_rf", None)
+        if stated is not None and np.isfinite(stated):
+            want = min(float(stated), float(options["radius_init"]))
+            if self.rf != want:
+                self.bad("radius_final_not_the_stated_one",
+                         f"radius_final stated as {stated!r} but the "
+                         f"framework works with {self.rf!r} (radius_init "
+                         f"{float(options['radius_init'])!r})",
+                         mechanism="radius_final_changed")
         self.quiescent(tr, "init")
         self.centre(tr, "init")
 
@@ -241,6 +253,11 @@ class Monitor:
                          mechanism="status0_resolution")
 
     def attach(self, r, rec):
+        try:
+            v = ((rec.spec or {}).get("options") or {}).get("radius_final")
+            self.stated_rf = None if v is None else float(v)
+        except Exception:  # noqa: BLE001
+            self.stated_rf = None
         r.on("tr.init.post", self.on_tr_init)
         r.on("step.tr.pre", self.on_iter)
         r.on("step.geo.pre", self.on_geo)
